@@ -1,4 +1,5 @@
-(* C25 wire functions.  input: [1 stream] (HTTP/1) | [2 [[name value]...]] (HTTP/2 fields) | [3 [[name value]...]] (SPDY pairs)
+(* C25 wire functions.  input: [1 stream] (HTTP/1) | [2 [[name value]...]] (HTTP/2 fields, END_STREAM) | [3 [[name value]...]] (SPDY pairs, FIN)
+   | [2 fields body] | [3 pairs body] (request with a body)
    output: [code bytes]: 0 = written bytes; 1 = rejected by the frontend; 2 = Request.Write failed (body unreadable) *)
 From Coq Require Import List ZArith Bool.
 From Bfe Require Import lib.Val lib.Bytes model.Http1Req model.Http1Write.
@@ -11,8 +12,10 @@ Definition dec_pair (v : val) : option (bytes * bytes) :=
 Definition accepted (i : val) : Z + wreq :=
   match i with
   | VL [VZ 1; VB s] => front_http1 s
-  | VL [VZ 2; VL ps] => match all_some (map dec_pair ps) with Some fs => front_h2 fs | None => inl 0 end
-  | VL [VZ 3; VL ps] => match all_some (map dec_pair ps) with Some fs => front_spdy fs | None => inl 0 end
+  | VL [VZ 2; VL ps] => match all_some (map dec_pair ps) with Some fs => front_h2b fs None | None => inl 0 end
+  | VL [VZ 3; VL ps] => match all_some (map dec_pair ps) with Some fs => front_spdyb fs None | None => inl 0 end
+  | VL [VZ 2; VL ps; VB b] => match all_some (map dec_pair ps) with Some fs => front_h2b fs (Some b) | None => inl 0 end
+  | VL [VZ 3; VL ps; VB b] => match all_some (map dec_pair ps) with Some fs => front_spdyb fs (Some b) | None => inl 0 end
   | _ => inl 0
   end.
 (* Request.write (after fixes 4b1c... see known_findings/C25.txt) writes nothing and returns an error when
